@@ -11,7 +11,7 @@ PROPS["C11"] = dict(
           "(bitswap, gateway, 2 graphsync, 2 unknown) in every distinct construction order; roundtrip-sampled: seeded "
           "multisets of size 1..6 of freshly generated protocols; hostile: seeded mutants (bit flip, truncation, "
           "length-field tampering up to 2^63, splice, ...) of valid encodings, <=1024 bytes, decoded under panic and "
-          "TotalAlloc guards and compared with an independent reference segmenter. distinct_nontrivial counts distinct "
+          "TotalAlloc guards and compared with an independent reference segmenter. Graphsync piece CIDs include identity CIDs of 14..37, 240..263 and 500..523 bytes (the sizes at which CBOR length prefixes grow). distinct_nontrivial counts distinct "
           "construction orders of >=2 protocols, distinct id-sequences of >=3 sampled protocols and distinct "
           "(mutation kind, decoded protocol list) pairs among ACCEPTED hostile inputs."),
     floors={"quick": {"decoded_into_a_zero_value_metadata": 10000, "hostile_accepted": 500, "hostile_rejected": 5000, "distinct": 500},
@@ -49,9 +49,9 @@ PROPS["C12"] = dict(
           "DecryptValueKey/DecryptMetadata/DecryptAES; valuekey: peer IDs of all key types (identity- and sha256-hashed) x context "
           "ids 0..64 incl. ones starting with a peer-ID; second-hash; concurrent callers under -race; find: small plaintext indexes "
           "loaded into an in-memory DHStoreAPI only through dhash functions, metadata-only and with pcache over a local HTTP source, "
-          "with hostile extra value keys / garbled metadata. distinct_nontrivial = distinct (payload len, passphrase len), "
+          "with hostile extra value keys / garbled metadata. A passphrase buffer is overwritten in place with another passphrase of the same length and used again: it must stand for the new bytes (same output as from a fresh slice, the old passphrase refused). distinct_nontrivial = distinct (payload len, passphrase len), "
           "(key type, ctx len), (hash code, len) and find-configuration tuples."),
-    floors={"quick": {"truncations": 5000, "bitflips": 5000, "find_nonempty_results": 100, "find_hostile_stores": 20, "find_via_dhstore_http": 20, "peerkind_identity": 100, "peerkind_sha256": 100},
+    floors={"quick": {"passphrase_buffers_reused_for_another_passphrase": 6000, "truncations": 5000, "bitflips": 5000, "find_nonempty_results": 100, "find_hostile_stores": 20, "find_via_dhstore_http": 20, "peerkind_identity": 100, "peerkind_sha256": 100},
             "thorough": {"truncations": 200000, "bitflips": 200000, "find_nonempty_results": 4000, "find_hostile_stores": 1000}},
     level_text=("Exploration: every decryption entry point is driven with every truncation and a flip at every byte of real "
                 "ciphertexts and must fail closed without panicking; round trips, determinism and the value-key split are checked "
@@ -71,7 +71,7 @@ PROPS["C20"] = dict(
           "each parsed from its textual form; tls-forms: /http, /https, /tls/http multiaddrs; end-to-end: a real sync client is given "
           "FromURL(publisher URL) and the path it requests is observed at a local HTTP server; helpers: address lists generated from labelled "
           "templates (public/private/loopback/unspecified/localhost/dns x http/https/tls-http/other) with duplicates, nils, permutations. "
-          "distinct_nontrivial = distinct (scheme, host kind, port present, path character classes) tuples, (host kind, form), path classes seen end "
+          "Address lists include zoned IPv6 addresses (/ip6zone/z/ip6/...) of every class over few zones and http/https directly after the host (no tcp component). distinct_nontrivial = distinct (scheme, host kind, port present, path character classes) tuples, (host kind, form), path classes seen end "
           "to end, and address-class multisets of size >=2."),
     floors={"quick": {"path_space": 500, "path_plus": 500, "path_pct": 500, "host_ip6": 2000, "host_dns": 2000, "e2e_requests": 200, "multiplicity_checked": 1000},
             "thorough": {"path_space": 20000, "path_plus": 20000, "host_ip6": 100000, "e2e_requests": 5000}},
@@ -152,9 +152,9 @@ PROPS["C13"] = dict(
           "decode(encode(v)) == v with optional parts kept absent/present, re-encoding stable, generic-prototype+Unwrap == typed, Store twice => "
           "same CID, load typed/generic == v; chunk-roundtrip: 0..50 multihashes of six hash functions with/without next link, same checks; "
           "hostile: seeded mutants of dag-json and dag-cbor encodings through BytesToAdvertisement/BytesToEntryChunk: error or re-encodable "
-          "value, typed and generic paths agree, no panic. distinct_nontrivial = option-bit combinations, chunk shapes and (mutation kind, codec, "
+          "value, typed and generic paths agree, no panic. One address in six is a valid multiaddr in a non-canonical spelling (trailing slash, expanded IPv6, legacy /ipfs/) and must come back as written; one hostile input in 40 is a few bytes of white space or a lone token. distinct_nontrivial = option-bit combinations, chunk shapes and (mutation kind, codec, "
           "type) among ACCEPTED hostile inputs."),
-    floors={"quick": {"hostile_accepted": 300, "hostile_rejected": 10000, "distinct": 150}},
+    floors={"quick": {"hostile_blank_or_lone_token_inputs": 1200, "hostile_accepted": 300, "hostile_rejected": 10000, "distinct": 150}},
     level_text=("Exploration: the library's own encode/decode/store/load entry points are executed on every combination of optional parts and on "
                 "tens of thousands of mutated encodings; oracles are value equality, CID equality, typed/generic agreement and absence of panics."),
     level_note="Trusted: go-ipld-prime's codecs as the reference for what 'encodes' means; the harness's equality (nil ~ empty).",
@@ -172,9 +172,9 @@ PROPS["C10"] = dict(
           "GetAddrs skips unknown protocols. http-sender: Send/SendJson to a local server, body decoded and compared with the message with "
           "/p2p/<publisher> encapsulated on every decodable address (unknown-protocol ones dropped), sender-level extra data; hostile: seeded "
           "mutants incl. CBOR length-header tampering up to 2^63: error or a message whose re-encoding decodes equal; TotalAlloc <= 4*len+3MiB; "
-          "no panic. Sub-check crafted-lengths assembles messages by hand with each field's declared length at, just over and far over its cap, the declared bytes present or missing: within caps and complete decodes and re-encodes; over a cap is rejected without allocating for the declared length. distinct_nontrivial = distinct (address count, OrigPeer, big extra, CID version, unknown-proto present) tuples, sender "
+          "no panic. Sub-check crafted-lengths assembles messages by hand with each field's declared length at, just over and far over its cap, the declared bytes present or missing: within caps and complete decodes and re-encodes; over a cap is rejected without allocating for the declared length. Every message is also decoded from a buffer that is then overwritten and reused: the decoded message must not change. distinct_nontrivial = distinct (address count, OrigPeer, big extra, CID version, unknown-proto present) tuples, sender "
           "configurations and (mutation kind, decoded shape) among ACCEPTED hostile inputs."),
-    floors={"quick": {"crafted_cases": 50, "crafted_over_cap": 20, "crafted_within_caps_decoded": 12, "hostile_accepted": 300, "hostile_rejected": 10000, "msgs_with_unknown_protocol_addr": 500, "sent_json": 100, "sent_cbor": 100}},
+    floors={"quick": {"crafted_cases": 50, "decoded_from_a_buffer_that_is_then_overwritten": 10000, "crafted_over_cap": 20, "crafted_within_caps_decoded": 12, "hostile_accepted": 300, "hostile_rejected": 10000, "msgs_with_unknown_protocol_addr": 500, "sent_json": 100, "sent_cbor": 100}},
     max_counters=["max_alloc_per_case"],
     level_text=("Exploration: the real encoder, decoder and HTTP sender are run on seeded messages and on tens of thousands of mutated encodings; "
                 "equality, wire content, panic-freedom and an allocation bound derived from the decoder's field caps are the oracles."),
@@ -194,7 +194,7 @@ PROPS["C19"] = dict(
           "raw requests over key forms {base58 multihash, hex multihash, CIDv0, CIDv1 in base32/base58/base16, bad keys, bad resource types} x 14 "
           "Accept header shapes {none, json, ndjson, */*, q-lists, two headers, upper case, unsupported, malformed} x 4 path prefixes: same "
           "results in order, NDJSON one result per line, empty set => 404 / empty response, bad requests => 4xx API error that decodes with "
-          "its status; apierror Encode/Decode/FromResponse round trips. distinct_nontrivial = distinct (accept kind, key kind, empty?) and list-size tuples."),
+          "its status; apierror Encode/Decode/FromResponse round trips. Accept headers include malformed entries on or next to a supported type (must be refused all the same). distinct_nontrivial = distinct (accept kind, key kind, empty?) and list-size tuples."),
     floors={"quick": {"ndjson_responses": 300, "json_responses": 1000, "empty_sets": 200, "rejected_accept": 300, "rejected_key": 300, "key_hex": 100, "key_cidv0": 100, "large_result_sets": 20}},
     level_text=("Exploration: the real writer and the real client talk over a local socket for thousands of generated result sets and request "
                 "shapes; the oracle is equality with what was written plus the status-code contract."),
@@ -215,7 +215,7 @@ PROPS["C03"] = dict(
           "identical mutants (same CID, topic, parsed key, signature) skipped. end-to-end: a real Subscriber syncs a real Publisher behind a "
           "front that replaces the head response (plain HTTP and libp2p-HTTP discovery mounts; publisher ID given as AddrInfo.ID or only as "
           "/p2p/<id> in the address): rejected, no block request after the head request, no hook, no store write, latest-synced unchanged; "
-          "genuine heads sync; and every head the publisher serves validates to its own ID, root and topic. End-to-end cases also ask for another identity than the one named by a /p2p/ component of the address, and for another identity at an address at which the subscriber has synced the real publisher before. Signature re-encodings (ECDSA s negated, a byte appended, the last byte dropped) are tampers of their own, classified per key type. distinct_nontrivial = distinct "
+          "genuine heads sync; and every head the publisher serves validates to its own ID, root and topic. End-to-end cases also ask for another identity than the one named by a /p2p/ component of the address, and for another identity at an address at which the subscriber has synced the real publisher before. Signature re-encodings (ECDSA s negated, a byte appended, the last byte dropped) are tampers of their own, classified per key type. Tamper cid-other-form-of-same-multihash keeps the digest and changes the CID around it (v0 <-> v1, other codec). distinct_nontrivial = distinct "
           "(key type, alteration, topic present / mount / id placement) tuples."),
     floors={"quick": {"head_queries_libp2p-stream": 15, "e2e_asked_for_other_identity_after_good_sync": 12, "e2e_asked_for_other_identity_than_in_address": 20, "e2e_rejections_expected": 120, "e2e_genuine_syncs": 10, "bytes_decodable_rejected": 2000, "publisher_heads_checked": 150, "e2e_mode_libp2phttp-discovery": 20, "e2e_replays_after_genuine_sync": 5, "setroot_then_head_checks": 200}},
     level_text=("Exploration: real signing, encoding, head queries and syncs; every listed alteration kind and every byte of sampled encodings is "
@@ -239,8 +239,8 @@ PROPS["C09"] = dict(
           "localhost/DNS); every Direct carries a unique marker address so the stream read from Next identifies exactly which calls were "
           "delivered; receiver-concurrent: 3 clients issuing Direct/UncacheCid around the eviction boundary, history checked with porcupine "
           "against the same model; pubsub: three libp2p hosts on one gossip topic (publisher, relay with resend, receiver). "
-          "Every fourth CID of the alphabet shares its digest with its neighbour under another codec and every sixteenth is the CIDv0 form of its neighbour's digest; the pubsub scenario rotates the downstream receiver's allow filter through {only the relay, only the original publisher, none}. distinct_nontrivial = sampled distinct exhaustive sequences + history configurations."),
-    floors={"quick": {"delivered_although_republication_failed": 2, "pubsub_republication_of_disallowed_publisher": 1, "pubsub_allow_filter_on_B_only-original-publisher": 1, "evictions": 800, "refresh_on_hit": 2000, "uncache_then_delivered": 100, "rejected_then_delivered": 100, "concurrent_histories": 20, "pubsub_runs_completed": 2, "seqs_with_eviction_and_hit": 100000}},
+          "Every fourth CID of the alphabet shares its digest with its neighbour under another codec and every sixteenth is the CIDv0 form of its neighbour's digest; the pubsub scenario rotates the downstream receiver's allow filter through {only the relay, only the original publisher, none}. One announcement in ten has only private / loopback / unspecified addresses (recognised by a CID of its own): with address filtering on it is delivered without addresses. distinct_nontrivial = sampled distinct exhaustive sequences + history configurations."),
+    floors={"quick": {"delivered_although_republication_failed": 2, "delivered_announcements_without_any_public_address": 3000, "pubsub_republication_of_disallowed_publisher": 1, "pubsub_allow_filter_on_B_only-original-publisher": 1, "evictions": 800, "refresh_on_hit": 2000, "uncache_then_delivered": 100, "rejected_then_delivered": 100, "concurrent_histories": 20, "pubsub_runs_completed": 2, "seqs_with_eviction_and_hit": 100000}},
     watchdog_s={"quick": 900, "thorough": 7200},
     level_text=("Exploration (the small-capacity LRU part is exhaustive up to the stated length): delivery decisions of the real receiver are "
                 "compared call by call with a reference model of 'allowed and not among the 64 most recently seen, un-removed CIDs'; "
@@ -357,7 +357,7 @@ PROPS["C06"] = dict(
           "never-reported providers, strangers that start being reported, waits; TTL regimes 'huge' (nothing can expire) and 'tiny' (1 ns, "
           "every step is certainly past it). Every record carries a unique tag and a version, so what Get/List show identifies the delivery "
           "it came from. After every refresh that returned nil the clauses of the statement are checked for every provider; expiry uses "
-          "[before,after] wall-clock intervals and only asserts what is certain. Step kind refresh-cancelled-late ends the caller's context while the last source is answering (that source still delivers); refresh-overlap-cancelled requests a refresh while another one, cancelled afterwards, is inside a source. distinct_nontrivial = distinct (configuration, first steps) histories."),
+          "[before,after] wall-clock intervals and only asserts what is certain. Step kind refresh-cancelled-late ends the caller's context while the last source is answering (that source still delivers); refresh-overlap-cancelled requests a refresh while another one, cancelled afterwards, is inside a source. Source times are written in several zone offsets and with fractional seconds, so text order is not time order. distinct_nontrivial = distinct (configuration, first steps) histories."),
     floors={"quick": {"lookup_misses_during_a_refresh": 600, "refreshes_cancelled_after_the_last_source_answered": 1500, "refreshes_overlapping_a_cancelled_one": 1500, "refreshes_ok": 1000, "cancelled_then_successful_refresh": 200, "refreshes_overlapping": 300, "negative_hits": 30, "expiries_observed": 100,
                       "miss_fetches_positive": 25, "publications_with_merge": 300, "publications_without_merge": 300, "strangers_start_being_reported": 200}},
     level_text=("Exploration: the real cache is driven through thousands of seeded histories and compared after each step with the clauses of the "
@@ -381,8 +381,8 @@ PROPS["C07"] = dict(
           "pcache frame; an always-reported provider is never missing; per reader, versions never go back; without auto refresh every List is "
           "one of the version vectors published by a refresh that overlaps the call. reads-do-not-wait: a Refresh / miss-fetch / automatic "
           "refresh is held open inside the source and 2..15 readers must each complete 1000 cached lookups BEFORE it is released (a watchdog "
-          "+ goroutine dumps only classify the failure). Sub-check late-miss-answer-vs-refresh: a lookup miss is held inside a source that decided its answer when the request arrived, the source learns a newer version (or starts reporting the provider), a refresh is requested, the miss is released: the provider must not go back to the older record or disappear, and after the refresh the newest record is shown. Four providers cached at the start stop being reported after round 3 and must stay listed (their time-to-live is an hour). distinct_nontrivial = distinct run configurations."),
-    floors={"quick": {"reads_of_cached_providers_no_longer_reported": 20000, "late_miss_answer_cases": 20, "reads": 100000, "reads_overlapping_a_refresh": 5000, "list_snapshot_checks": 2000, "publications": 1500, "nowait_refresh": 3, "nowait_miss-fetch": 3, "nowait_auto-refresh": 3,
+          "+ goroutine dumps only classify the failure). Sub-check late-miss-answer-vs-refresh: a lookup miss is held inside a source that decided its answer when the request arrived, the source learns a newer version (or starts reporting the provider), a refresh is requested, the miss is released: the provider must not go back to the older record or disappear, and after the refresh the newest record is shown. Four providers cached at the start stop being reported after round 3 and must stay listed (their time-to-live is an hour). A third of the late-miss cases let a lookup be answered by the fresher of two sources and then refresh from the lagging one only (the fresher fails, or stops listing the provider): reads must not go back. distinct_nontrivial = distinct run configurations."),
+    floors={"quick": {"reads_of_cached_providers_no_longer_reported": 20000, "lookups_followed_by_a_refresh_from_a_lagging_source": 8, "late_miss_answer_cases": 20, "reads": 100000, "reads_overlapping_a_refresh": 5000, "list_snapshot_checks": 2000, "publications": 1500, "nowait_refresh": 3, "nowait_miss-fetch": 3, "nowait_auto-refresh": 3,
                       "lookups_completed_while_writer_held": 50000}},
     watchdog_s={"quick": 900, "thorough": 7200},
     level_text=("Exploration: stress runs of the real cache under the race detector with delays injected at the publication points; every read is "
